@@ -164,7 +164,7 @@ def r4_cloexec(ctx):
 
 
 RULES = [
-    ("C11.R1", r1_escape_hatches, 3, False),
+    ("C11.R1", r1_escape_hatches, 2, False),
     ("C11.R2", r2_statics, 3, False),
     ("C11.R3", r3_rc_types, 2, False),
     ("C11.R4", r4_cloexec, 8, False),
